@@ -32,3 +32,25 @@ func TestRegressC10_VnetDeadline(t *testing.T) {
 		}
 	}
 }
+
+// Scripted: a value applied through SetReadDeadline, replaced through
+// SetDeadline, and applied again must be in force (on every connection type
+// that has both setters).
+func TestRegressC10_ScriptReappliedValue(t *testing.T) {
+	ms := time.Millisecond
+	hists := [][]step{
+		{{kind: stSet, dl: "near", d: 15 * ms}, {kind: stSet, dl: "zero", both: true}, {kind: stSet, dl: "again"}, {kind: stRead}, {kind: stWait}},
+		{{kind: stSet, dl: "near", d: 15 * ms}, {kind: stSet, dl: "past", both: true}, {kind: stSet, dl: "again"}, {kind: stRead}, {kind: stWait}},
+		{{kind: stSet, dl: "near", d: 15 * ms}, {kind: stSet, dl: "far", both: true}, {kind: stSet, dl: "again"}, {kind: stRead}, {kind: stWait}},
+	}
+	for i, h := range hists {
+		for _, mk := range []func() adapter{newDpipe, newBridge} {
+			a := mk()
+			msg := runHistory(a, h, func(string) {})
+			a.Close()
+			if msg != "" {
+				t.Fatalf("C10: history %d %v: %s", i, h, msg)
+			}
+		}
+	}
+}
